@@ -15,13 +15,18 @@ fn loud_probe(rng: &mut SmallRng, opq: u32) -> Frame {
 }
 
 pub fn oversize_frame(rng: &mut SmallRng, opq: u32, limit: u32, body: u32) -> Frame {
-    let op = *[0x01u8, 0x11, 0x02, 0x03, 0x0e, 0x0f, 0x00, 0x04, 0x05, 0x0a, 0x08, 0x1c, 0x10].choose(rng).unwrap();
+    // any opcode the header check lets through (C13: "for every opcode"), the common ones more often
+    let op = if rng.gen_bool(0.5) { *[0x01u8, 0x11, 0x02, 0x03, 0x0e, 0x0f, 0x00, 0x04, 0x05, 0x0a, 0x08, 0x1c, 0x10].choose(rng).unwrap() } else { rng.gen_range(0..37) as u8 };
+    oversize_frame_op(op, opq, limit, body)
+}
+
+pub fn oversize_frame_op(op: u8, opq: u32, limit: u32, body: u32) -> Frame {
     let key = b"big";
     let (el, kl): (u8, u16) = match op {
-        0x01 | 0x11 | 0x02 | 0x03 => (8, 3),
-        0x05 => (20, 3),
-        0x0a | 0x08 | 0x10 => (0, 0),
-        0x1c => (4, 3),
+        0x01 | 0x11 | 0x02 | 0x03 | 0x12 | 0x13 => (8, 3),
+        0x05 | 0x06 | 0x15 | 0x16 => (20, 3),
+        0x0a | 0x0b | 0x08 | 0x18 | 0x10 | 0x07 | 0x17 => (0, 0),
+        0x1c | 0x1d | 0x1e => (4, 3),
         _ => (0, 3),
     };
     let mut b: Vec<u8> = Vec::with_capacity(body as usize);
@@ -105,6 +110,44 @@ pub fn gen_tcp_stream(profile: &str, name: &str, rng: &mut SmallRng) -> Stream {
                     frames.push(Frame::consistent(0x01, &ex, b"at", &vec![b'z'; vlen], opq, 0));
                 } else {
                     frames.push(loud_probe(rng, opq));
+                }
+            }
+        }
+        "toversweep" => {
+            // one stream per opcode 0x00..=0x24 (by the stream's number): the oversized frame first or second,
+            // then requests that must be served normally
+            limit = *[1024u32, 2048].choose(rng).unwrap();
+            let idx: usize = name.rsplit('-').next().and_then(|x| x.parse().ok()).unwrap_or(0);
+            let op = (idx % 37) as u8;
+            if rng.gen_bool(0.5) {
+                opq += 1;
+                frames.push(loud_probe(rng, opq));
+            }
+            opq += 1;
+            let body = *[limit + 1, limit + 2, 2 * limit, 3 * limit + 7].choose(rng).unwrap();
+            frames.push(oversize_frame_op(op, opq, limit, body));
+            opq += 1;
+            frames.push(loud_probe(rng, opq));
+            opq += 1;
+            frames.push(Frame::consistent(0x00, &[], b"p0", &[], opq, 0));
+        }
+        "tslow" => {
+            // answers far larger than the socket buffers: one large item read again and again, small requests in between
+            limit = 1 << 20;
+            let vlen = *[16 * 1024usize, 100 * 1024, 400 * 1024].choose(rng).unwrap();
+            let val: Vec<u8> = (0..vlen).map(|i| (i * 31 % 251) as u8).collect();
+            let mut ex = Vec::new();
+            ex.extend_from_slice(&9u32.to_be_bytes());
+            ex.extend_from_slice(&0u32.to_be_bytes());
+            opq += 1;
+            frames.push(Frame::consistent(0x01, &ex, b"slow", &val, opq, 0));
+            let n = 12 * 1024 * 1024 / vlen;
+            for i in 0..n {
+                opq += 1;
+                frames.push(Frame::consistent(if i % 5 == 4 { 0x0c } else { 0x00 }, &[], b"slow", &[], opq, 0));
+                if i % 9 == 8 {
+                    opq += 1;
+                    frames.push(if rng.gen_bool(0.5) { loud_probe(rng, opq) } else { Frame::consistent(0x0b, &[], &[], &[], opq, 0) });
                 }
             }
         }
